@@ -37,7 +37,7 @@ ASSUMPTIONS = [
 
 
 def floors(tier):
-    return {"clean": 800, "garbage": 800, "nontrivial": 300, "has-rejected": 800}
+    return {"clean": 800, "garbage": 800, "nontrivial": 300, "has-rejected": 800, "pipe-like-source": 300, "handler=object": 500}
 
 
 def plan(tier, seed):
@@ -53,13 +53,33 @@ class _Capture(logging.Handler):
         self.records.append(record)
 
 
+class Collector:
+    """An error handler that is a callable *object* - and an empty (falsy) container
+    until the first error arrives."""
+
+    def __init__(self, events):
+        self.events = events
+        self.seen = []
+
+    def __call__(self, err):
+        self.seen.append(err)
+        self.events.append(("err", err))
+
+    def __len__(self):
+        return len(self.seen)
+
+
 def trace(data, opts, qe, handler=True):
     """-> (events, foreign_exc | None); events: ("item", raw, parsed) | ("err", exc)"""
     import pyubx2
 
     events = []
-    o = dict(opts, quitonerror=qe)
-    rd = S.mk_reader(io.BytesIO(data), o, (lambda e: events.append(("err", e))) if (handler and qe == 1) else None)
+    o = {k: v for k, v in dict(opts, quitonerror=qe).items() if not k.startswith("_")}
+    h = None
+    if handler and qe == 1:
+        h = Collector(events) if opts.get("_handler") == "object" else (lambda e: events.append(("err", e)))
+    stream = S.pipe_stream(data) if opts.get("_pipe") else io.BytesIO(data)
+    rd = S.mk_reader(stream, o, h)
     steps = 0
     while True:
         steps += 1
@@ -75,6 +95,18 @@ def trace(data, opts, qe, handler=True):
         if raw is None and parsed is None:
             return events, None
         events.append(("item", raw, parsed))
+
+
+def _from_dependency(excs):
+    import traceback
+
+    for f in excs:
+        if f is None:
+            continue
+        for fr in traceback.extract_tb(f.__traceback__):
+            if "/pynmeagps/" in fr.filename or "/pyrtcm/" in fr.filename:
+                return True
+    return False
 
 
 def same_trace(a, b):
@@ -98,7 +130,9 @@ def brief(ev):
 def check(case) -> core.Out:
     items, opts, clean = case["items"], dict(case["opts"]), case["clean"]
     data = streams.stream_bytes(items)
-    out = core.Out(classes=["clean" if clean else "garbage"], dig=core.digest((data, sorted(opts.items()))))
+    out = core.Out(classes=["clean" if clean else "garbage"] + (["pipe-like-source"] if opts.get("_pipe") else [])
+                   + ([f"handler={opts.get('_handler')}"] if opts.get("_handler") else []),
+                   dig=core.digest((data, sorted((k, repr(v)) for k, v in opts.items()))))
     lg = logging.getLogger("pyubx2")
     cap = _Capture()
     old_level, old_prop = lg.level, lg.propagate
@@ -122,6 +156,17 @@ def check(case) -> core.Out:
         lg.setLevel(old_level)
         lg.propagate = old_prop
     if any(f is not None for f in (f0, f1, f2, f3)):
+        if sum(f is not None for f in (f0, f1, f2, f3)) < 4 and not any(
+                type(f).__module__.startswith(("pynmeagps", "pyrtcm")) or "pynmeagps" in repr(getattr(f, "__traceback__", ""))
+                for f in (f0, f1, f2, f3) if f is not None) and not _from_dependency([f0, f1, f2, f3]):
+            # one reporting mode raises a foreign exception on a stream the others read
+            # to the end: the mode changed more than the reporting
+            which = [n for n, f in zip(("LOG+handler", "IGNORE", "RAISE", "LOG"), (f1, f0, f2, f3)) if f is not None]
+            ex = next(f for f in (f0, f1, f2, f3) if f is not None)
+            out.viol.append((f"{PROP}|mode-raises:{type(ex).__name__}",
+                             f"quitonerror mode(s) {which} raise {ex!r:.80} where the other modes deliver the stream; "
+                             f"stream {data[:40].hex()}"))
+            return out
         out.classes = ["skipped:foreign-exception(C08)"]
         return out
     key = f"{PROP}|"
@@ -171,6 +216,8 @@ OPTS = st.fixed_dictionaries({
     "validate": st.sampled_from([1, 1, 0]),
     "parsebitfield": st.sampled_from([1, 0]),
     "protfilter": st.sampled_from([7, 7, 7, 3]),
+    "_handler": st.sampled_from(["function", "object"]),
+    "_pipe": st.sampled_from([False, False, True]),
 })
 
 
